@@ -1363,3 +1363,10 @@ package collection
 //@   mayblock
 //@   requires nonnilq(this) ==> value != nil
 //@   modifies view(this)
+
+// parsedval(source): the value ParseSource returns for a source text (a function of the text only: C10/C11)
+//@ declare parsedval(Str) U
+//@ iface NotationLike.ParseSource
+//@   defines result == parsedval(source)
+//@ iface NotationLike.FormatValue
+//@   nopanic
